@@ -268,6 +268,8 @@ def no_global_write(chk, program, rule='NO-GLOBAL-WRITE'):
                 for t in st.targets:
                     if isinstance(t, ast.Name):
                         module_names.add(t.id)
+            if isinstance(st, ast.AnnAssign) and isinstance(st.target, ast.Name):
+                module_names.add(st.target.id)
             if isinstance(st, (ast.Import, ast.ImportFrom)):
                 for a in st.names:
                     module_names.add((a.asname or a.name).split('.')[0])
